@@ -341,11 +341,13 @@ class Forest:
         if name in self.busy:
             raise Malformed('cyclic definition of variable %s' % name)
         self.busy.add(name)
-        v = self.vars[name]
-        shape, vals = self.teval(v['tree'])
-        if list(shape) != list(v['shape']):
-            raise Malformed('variable %s: declared shape %s, expression shape %s' % (name, v['shape'], list(shape)))
-        self.busy.discard(name)
+        try:
+            v = self.vars[name]
+            shape, vals = self.teval(v['tree'])
+            if list(shape) != list(v['shape']):
+                raise Malformed('variable %s: declared shape %s, expression shape %s' % (name, v['shape'], list(shape)))
+        finally:
+            self.busy.discard(name)
         self.varvals[name] = (shape, vals)
         return shape, vals
 
